@@ -146,6 +146,13 @@ def corpus(n, seed):
             field("pv", 5, "repeated", s("sint32"), packed_opt=True, syntax=syntax),
             field("long", 16, lab, s("string"), syntax=syntax),
             field("tail", 17, lab, s("bool"), syntax=syntax)]})
+        # every varint width 1..10 (value = 2^(7j) - 1 and 2^(7j)) in packed and unpacked position, and as a singular value
+        lf = []
+        for i, t in enumerate(["uint64", "int64", "sint64", "uint32", "int32", "sint32"]):
+            lf.append(field(f"p{i}", 1 + i, "repeated", s(t), packed_opt=True, syntax=syntax))
+            lf.append(field(f"u{i}", 2040 + i, "repeated", s(t), packed_opt=False, syntax=syntax))
+        lf.append(field("tail", 15, lab, s("bool"), syntax=syntax))
+        msgs.append({"name": f"Lad{si}", "fields": lf})
         for m in msgs:
             m["syntax"] = syntax
         schemas.append({"name": f"p{si}", "syntax": syntax, "package": "", "enums": enums, "messages": msgs})
